@@ -234,7 +234,7 @@ func (g *Graph) resultEdges(site Site, boolVal *bool) Set {
 		}
 	}
 	// 2. result stored in a variable, tested later
-	obj := g.resultVar(site)
+	obj := g.resultVar(site, boolVal != nil)
 	if obj == nil {
 		return out
 	}
@@ -274,7 +274,7 @@ func (g *Graph) resultEdges(site Site, boolVal *bool) Set {
 
 // resultVar returns the variable receiving the tested result of the call at
 // site: the error (last) result for ErrNil, the only/bool result otherwise.
-func (g *Graph) resultVar(site Site) types.Object {
+func (g *Graph) resultVar(site Site, wantBool bool) types.Object {
 	info := g.Fn.Info()
 	var lhs []ast.Expr
 	var rhs []ast.Expr
@@ -304,7 +304,7 @@ func (g *Graph) resultVar(site Site) types.Object {
 		tv := info.Types[site.Call]
 		if tup, ok := tv.Type.(*types.Tuple); ok {
 			for i := tup.Len() - 1; i >= 0; i-- {
-				if isErrorType(tup.At(i).Type()) || isBool(tup.At(i).Type()) {
+				if (!wantBool && isErrorType(tup.At(i).Type())) || (wantBool && isBool(tup.At(i).Type())) {
 					if i < len(lhs) {
 						return pick(lhs[i])
 					}
